@@ -482,6 +482,47 @@ func relatedPrelude() []*c01case {
 	}
 }
 
+// largeQuorumPrelude: thresholds of 16 and more (where an implementation may verify in batches or in
+// parallel) with one defect at every position: an adjacent duplicate (same bytes, high-s twin), an adjacent
+// swap, an unknown signer. Raw attestations, judged by the reference verifier.
+func largeQuorumPrelude() []*c01case {
+	msg := []byte("large quorum prelude message ..................................................................................................")
+	var out []*c01case
+	for _, t := range []int{16, 17, 24, 32, 33} {
+		var en []attEntry
+		var ks []*attest.Key
+		for i := 0; i < t+2; i++ {
+			en = append(en, attEntry{Key: i, Style: i % 6})
+			ks = append(ks, attest.K(i))
+		}
+		attest.SortByAddr(ks)
+		var sigs [][]byte
+		for _, k := range ks[:t] {
+			sigs = append(sigs, attest.Sign(msg, k, attest.SigStyle{}))
+		}
+		mk := func(edit func(ss [][]byte)) *c01case {
+			ss := make([][]byte, len(sigs))
+			for i := range sigs {
+				ss[i] = append([]byte{}, sigs[i]...)
+			}
+			edit(ss)
+			return &c01case{Enabled: en, Threshold: uint32(t), Msg: hex.EncodeToString(msg), RawAtt: hex.EncodeToString(bytes.Join(ss, nil))}
+		}
+		out = append(out, mk(func([][]byte) {}))
+		for p := 0; p+1 < t; p++ {
+			p := p
+			out = append(out,
+				mk(func(ss [][]byte) { ss[p+1] = append([]byte{}, ss[p]...) }),
+				mk(func(ss [][]byte) { ss[p+1] = attest.Sign(msg, ks[p], attest.SigStyle{Twin: true}) }),
+				mk(func(ss [][]byte) { ss[p], ss[p+1] = ss[p+1], ss[p] }))
+			if p%8 == 0 || p%8 == 7 || p == t-2 {
+				out = append(out, mk(func(ss [][]byte) { ss[p] = attest.Sign(msg, attest.K(100+p), attest.SigStyle{}) }))
+			}
+		}
+	}
+	return out
+}
+
 func c01prelude() []*c01case {
 	msg := hex.EncodeToString([]byte("prelude message"))
 	en := []attEntry{{0, 0}, {1, 1}, {2, 2}, {3, 5}}
@@ -524,7 +565,7 @@ func RunC01(t *testing.T) {
 		st.Case(key, func() any { return cc }, append(cls, extra)...)
 		return nil, ""
 	}
-	for _, c := range append(c01prelude(), relatedPrelude()...) {
+	for _, c := range append(append(c01prelude(), relatedPrelude()...), largeQuorumPrelude()...) {
 		if v, h := run(c, "prelude"); v != nil || h != "" {
 			if h != "" {
 				t.Fatalf("HARNESS %s", h)
